@@ -35,7 +35,9 @@ CHECKS.update({
              "observer in the innermost hole, is generated with the optimizer on and off and evaluated on every argument tuple; the outcome must "
              "equal that of an independent reference interpreter. Two further spaces: every closure-calling lazy stage (and closure-free stages over them) kept "
              "unevaluated across 9 kinds of later frames against its materialised twin, and 16 binary operators x 21 x 21 operands of EVERY sort (ill-typed "
-             "pairs included; the typed grammar builds well-typed programs only). Exhaustive within those bounds (about 11 M evaluations quick).",
+             "pairs included; the typed grammar builds well-typed programs only). Template families for what lies outside the node bounds: locals named like static functions, closures under method "
+             "names, one call site reached with different kinds of maps, a switch matrix (2-3 cases, constant and non-constant subjects and labels of every sort), recursive funcs declared inside "
+             "capturing closures, index accesses nested in stack-running closures. Exhaustive within those bounds (about 11 M evaluations quick).",
         note="Trusted: the reference interpreter internal/refsem (lexically scoped, call-by-value, left-to-right; only ok-vs-error for faults) and the "
              "renderer internal/vlang. Not decided: programs larger than the bounds, floats/strings as arguments (covered by C02/C14 tables).",
         technique="bounded-exhaustive enumeration of programs x argument tuples x optimizer settings against a reference interpreter",
@@ -46,7 +48,8 @@ CHECKS.update({
         text="Differential twin: the whole input space of the optimizer's folding and regrouping rules (every operator x 8 chain shapes x 12 constants of "
              "every sort x 8 argument values; unary/if/switch/index/member/method/application/try on every constant) and every program of the typed grammar "
              "with counting host functions up to 7 (thorough: 8) nodes is generated with the optimizer on and removed; outcomes and impure-call counts must "
-             "agree, no impure call during Generate, and counts must equal the reference interpreter's.",
+             "agree, no impure call during Generate, and counts must equal the reference interpreter's. A switch matrix (2-3 cases, 6 subjects x 9 labels per case, constant and not, with counting labels and results) "
+             "decides the left-to-right first-match rule under folding.",
         note="Trusted: SetOptimizer(nil) really disables folding; counting host functions tick (impure) / ptick (pure). Float constants are dyadic so the "
              "rounding allowance is never used. The float/bool instantiations are decided by C19's check.",
         technique="bounded-exhaustive differential enumeration (optimizer on vs off) with call counters and a reference interpreter",
@@ -102,7 +105,7 @@ CHECKS.update({
              "execution at item 12, failing elements in the sequential and the parallel phase, merge with stack-using operands, multiUse consumer pairs incl. "
              "consumers that stop at once, shared lazy lists, groups handed across goroutines, nested parallel stages) ALL interleavings are explored on the real code (stateless DFS, history-key pruning, no preemption bound) and every terminal "
              "state is checked: outcome = strictly sequential reference, no happens-before data race on the value stacks, no deadlock, no panic on a "
-             "library goroutine. A conformance pass evaluates every quick scenario on the PLAIN build (real goroutines, a really sleeping slow()) against "
+             "library goroutine. Failing elements are thrown errors and Go panics, in closures created at run time and in closures the optimizer turned into constants. A conformance pass evaluates every quick scenario on the PLAIN build (real goroutines, a really sleeping slow()) against "
              "the sequential variant. Every scenario is explored a second time WITHOUT pruning under a preemption bound of 2 (thorough: 3; capped per scenario, cap hits in the evidence). A third pass runs the same scenarios free-running on a -race build; every distinct report is classified.",
         note=VS + " List lengths beyond 17 and more than 3 elements in the parallel phase are not explored (each further element repeats the same worker cycle). "
              "A multiUse consumer that never iterates its list yields the pinned 'iterator timed out' error (repository test) and is excluded from the outcome oracle.",
@@ -140,7 +143,7 @@ CHECKS.update({
         level="model_checking", engine="vsched",
         text="Every token sequence of <= 4 (thorough: 5) tokens over a 25-token alphabet (incl. a superscript digit, which the tokenizer turns into two tokens) and longer programs cut at every token or followed by trailing tokens "
              "(every way parsing can stop early), on the generic parser, on value Generate and on value Generate in comfort mode, and ~250 (thorough: ~900) pipeline evaluations whose consumer stops "
-             "early (first, top, present, indexWhere, single, ~, multiUse) or whose elements fail, around the switch to parallel execution, are run on the real "
+             "early (first, top, present, indexWhere, single, ~, = with lists, multiUse) over every function-calling stage with a slow function, or whose elements fail, around the switch to parallel execution, are run on the real "
              "code under the controlled scheduler with ALL interleavings; at every terminal state every vthread must have terminated, and the number of "
              "transitions executed after the call returned must not grow when the source is doubled.",
         note=VS + " Quiescence under the scheduler replaces the wall-clock grace period of the property. Findings F12b/F12c live in the pinned iterator "
@@ -182,7 +185,7 @@ CHECKS.update({
              "and inside try, ALL schedules under the controlled scheduler: no panic may reach the top of a library goroutine, outcome error resp. catch value; "
              "faults in lazy lists inside the RESULT of a multiUse function (6 positions); 33 multiUse functions misusing their list; every method of the list type x "
              "argument tuples x 6 receivers of 16 items behind a map stage that runs parallel from item 13 (the method's own Go code then runs on a goroutine "
-             "of the iterator library). (c) -race build: the scenarios of (b) free-running, every report of the race detector classified.",
+             "of the iterator library); 32 non-terminating recursion shapes through every function-calling method. (c) -race build: the scenarios of (b) free-running, every report of the race detector classified.",
         note="Trusted: process exit status and the journal for crash pinpointing; that an input IS a fault is taken from the library's own bare evaluation, except "
              "for the arithmetic/indexing faults the property names (must be errors). A 64 MB goroutine stack limit is set in the workers so that runaway "
              "recursion dies quickly. Requests to allocate 2^62 elements are excluded (resource exhaustion). " + VS,
@@ -358,7 +361,7 @@ CHECKS.update({
              "deduplicated on the hidden state of every folded constant list, the optimizer stack, pending handles and stack residue, except that ALL histories "
              "of length <= 2 are executed without merging (state captured by Go closures is invisible to the key). Quick: about 95 000 states and 2.2 M transitions, "
              "all executed on the implementation; the evidence lists the depths at which key fixpoints were reached and which configurations ended at their depth "
-             "cap; plus one to three plain 50-step histories per configuration.",
+             "cap; plus one to three plain 50-step histories per configuration. The program families include one call site reached with receivers of different kinds in different evaluations and index accesses nested in stack-running closures.",
         note="Differential oracle: the reference is the implementation itself on a fresh generator, so a result that is wrong already on the first evaluation is C01/C07's "
              "subject. Error texts are not compared. The fixpoint argument trusts that the key contains every field the list code reads (overlay accessors plus "
              "reflection over all other List fields) and 128-bit key hashes. Pairs, generate-in-between and host configurations are depth-bounded. Lists have fewer "
